@@ -143,10 +143,16 @@ impl Parsable for Layout {
                     ));
                 }
                 if raw_property.is_variant_id() && variant_name.is_some() {
-                    return Err(format_error!(
-                        "VariantId cannot be in the middle of a variant definition.",
-                        parser
-                    ));
+                    if variant_size != entry_size - common_size {
+                        return Err(format_error!(
+                            "VariantId cannot be in the middle of a variant definition.",
+                            parser
+                        ));
+                    }
+                    // The previous variant has no stored property (and the variant part is empty): it is complete.
+                    variants.push(Properties::new(common_size, std::mem::take(&mut variant_def)).into());
+                    variants_map.insert(variant_name.take().unwrap(), variants.len() as u8 - 1);
+                    variant_size = 0;
                 }
                 if raw_property.is_variant_id() {
                     // This is a special property
@@ -181,6 +187,14 @@ impl Parsable for Layout {
                         continue;
                     }
                 }
+            }
+            if let Some(name) = variant_name.take() {
+                // The last variant has no stored property: it is complete if the variant part is empty.
+                if variant_size != entry_size - common_size {
+                    return Err(format_error!("We cannot have left over variant definiton."));
+                }
+                variants.push(Properties::new(common_size, std::mem::take(&mut variant_def)).into());
+                variants_map.insert(name, variants.len() as u8 - 1);
             }
             if !variant_def.is_empty() {
                 return Err(format_error!("We cannot have left over variant definiton."));
